@@ -51,6 +51,7 @@ type FuncContract struct {
 	Trusted    bool
 	TrustNote  string
 	Loops      map[int]*LoopSpec
+	Iters      map[int]*LoopSpec // invariants of iterator calls (BitField.ForEach(closure) ...), by ordinal
 	Calls      []*CallSpec
 	Asserts    []*Clause // not used yet
 	MayPanic   bool      // do not generate explicit-panic obligations
@@ -127,7 +128,7 @@ var clauseKeywords = map[string]bool{
 	"nooverflow": true, "trusted": true, "loop": true, "invariant": true, "decreases": true,
 	"results": true, "pred": true, "spec": true, "axiom": true, "lemma": true, "vars": true,
 	"call": true, "assume": true, "assert": true, "maypanic": true, "checknil": true, "pure": true,
-	"opaque": true, "noinline": true, "harness": true, "hide": true, "bounded": true, "note": true, "at": true, "before": true, "after": true,
+	"opaque": true, "noinline": true, "harness": true, "hide": true, "iter": true, "bounded": true, "note": true, "at": true, "before": true, "after": true,
 }
 
 // rewriteImplies turns "a ==> b" into "implies(a, b)" at every parenthesis level (right associative,
@@ -423,7 +424,7 @@ func (C *Contracts) parseFile(path, pkgPath string) error {
 		switch kw {
 		case "func":
 			name := rest
-			curF = &FuncContract{Pkg: pkgPath, Name: name, Loops: map[int]*LoopSpec{}, File: path, Line: l.line}
+			curF = &FuncContract{Pkg: pkgPath, Name: name, Loops: map[int]*LoopSpec{}, Iters: map[int]*LoopSpec{}, File: path, Line: l.line}
 			key := name
 			if !strings.Contains(name, "/") && !isExternalName(name) {
 				key = pkgPath + "." + name
@@ -532,6 +533,11 @@ func (C *Contracts) parseFile(path, pkgPath string) error {
 			fmt.Sscanf(rest, "%d", &n)
 			curLoop = &LoopSpec{Ordinal: n}
 			curF.Loops[n] = curLoop
+		case "iter":
+			var n int
+			fmt.Sscanf(rest, "%d", &n)
+			curLoop = &LoopSpec{Ordinal: n}
+			curF.Iters[n] = curLoop
 		case "at":
 			// at <callee> <n>
 			var callee string
